@@ -33,6 +33,13 @@ class Env:
         self.assumptions.append(z3.And(v >= lo, v <= (self.bound if hi is None else hi)))
         return FV(False, v)
 
+    def sym_f_path(self, st, name, lo=0, hi=None):
+        """A symbolic value introduced DURING execution (by an environment function): its range is an assumption of the
+        path, not of the obligation (env.assumptions is rebuilt by every re-execution)."""
+        v = z3.Int(name)
+        st.assumed.append(z3.And(v >= lo, v <= (self.bound if hi is None else hi)))
+        return FV(False, v)
+
     def sym_f_or_max(self, name):
         v = z3.Int(name)
         m = z3.Bool(name + '_is_max')
